@@ -248,8 +248,8 @@ def run(ck):
            MaxLen=4, MaxRegs=2, AllHints="TRUE", **conf2)
         mc("confirmations, conflicting pair, chain<=5, 2 clients, depths 1-2", "mc_conf5",
            MaxLen=5, MaxRegs=2, AllHints="FALSE", MaxConfs=2, **conf2)
-        mc("confirmations, 3 txs (pair + independent), chain<=3, 2 clients, depths 1-2", "mc_conf3tx",
-           MaxLen=3, MaxRegs=2, AllHints="FALSE", MaxConfs=2, NOuts=2, Incl="Incl3", ConfTargets="{1, 2, 3}", SpendTargets="{}")
+        mc("confirmations, 2 independent txs, chain<=3, 2 clients, depths 1-3", "mc_conf_indep",
+           MaxLen=3, MaxRegs=2, AllHints="FALSE", NOuts=2, Incl="Incl4", ConfTargets="{1, 3}", SpendTargets="{}")
         mc("spends, two conflicting spenders, chain<=5, 3 clients, every hint", "mc_spend5",
            MaxLen=5, MaxRegs=3, AllHints="TRUE", **spend1)
         mc("spends, 2 outpoints x 2 spenders, chain<=4, 2 clients", "mc_spend2o",
@@ -292,6 +292,17 @@ def run(ck):
         corrupt_control(ck, recs, dict(R), "gen")
     ck.cov["samples"].append({"generated": [{k: r[k] for k in ("a", "i", "t", "n", "hint", "inc", "ev", "chint", "shint", "hd")}
                                             for r in split_traces(recs)[0][1:7]]})
+
+    # ---- (d'') a second generator configuration: confirmations of two independent transactions only, 3 clients
+    # with depths 1-3 (different requests maturing at the same height, partial reorgs of the later block)
+    G2 = dict(Incl="Incl4", ConfTargets="{1, 3}", SpendTargets="{}", MaxRegs=3)
+    files2 = ck.generate(SPEC, "TxNotifierGen", "TxNotifierGen.cfg", 600 if thorough else 200, 14 + 4,
+                         constants=dict(MaxHist=14, **G2, **R), name="gen_indep", timeout=1500)
+    trace4, recs4 = run_exec(ck, "TestVerifC14Replay",
+                             {"VERIF_SCHED": os.path.dirname(files2[0]), "VERIF_NOUTS": 2, "VERIF_MAXREGS": 3,
+                              "VERIF_SAFETY": 3}, "exec_gen_indep")
+    account(ck, recs4)
+    validate_batches(ck, recs4, dict(G2, **R), "a TLC-generated behaviour (independent txs)", "val_gen_indep")
 
     # ---- (d') thorough: the same behaviours with script-only registrations (zero txid / zero outpoint)
     if thorough:
